@@ -76,5 +76,66 @@ endian_harness!(c15_endian_f64, f64, kani::any());
 #[cfg(feature = "float16")]
 endian_harness!(c15_endian_f16, Float16, Float16(float16::f16::from_bits(kani::any())));
 
+
+// ------------------------------------------------------------------ Atomics read-modify-write operations
+
+/// `Atomics.add/sub/and/or/xor/exchange/compareExchange` on an element (`ElementRefMut::{add,sub,bit_and,bit_or,
+/// bit_xor,swap,compare_exchange}`): on a plain buffer and on a shared (atomic) buffer alike, the operation returns
+/// the old value and leaves `old (op) value` (wrapping) in memory - the byte-array model of 25.4.
+macro_rules! rmw_harness {
+    ($name:ident, $t:ty, $atomic:ty) => {
+        // FN: ElementRefMut::add, ElementRefMut::sub, ElementRefMut::bit_and, ElementRefMut::bit_or, ElementRefMut::bit_xor, ElementRefMut::swap, ElementRefMut::compare_exchange, ElementRefMut::store, ElementRef::load
+        #[kani::proof]
+        fn $name() {
+            let (init, v, exp): ($t, $t, $t) = (kani::any(), kani::any(), kani::any());
+            let op: u8 = kani::any();
+            kani::assume(op < 7);
+            kani::cover!(op == 0 && init.checked_add(v).is_none());
+            kani::cover!(op == 6 && init == exp);
+            kani::cover!(op == 6 && init != exp);
+            let mut plain: $t = init;
+            let atomic = <$atomic>::new(init);
+            let apply = |mut r: ElementRefMut<'_, $t>| -> $t {
+                match op {
+                    0 => r.add(v, Ordering::SeqCst),
+                    1 => r.sub(v, Ordering::SeqCst),
+                    2 => r.bit_and(v, Ordering::SeqCst),
+                    3 => r.bit_or(v, Ordering::SeqCst),
+                    4 => r.bit_xor(v, Ordering::SeqCst),
+                    5 => r.swap(v, Ordering::SeqCst),
+                    _ => r.compare_exchange(exp, v, Ordering::SeqCst),
+                }
+            };
+            let old_p = apply(ElementRefMut::Plain(&mut plain));
+            let old_a = apply(ElementRefMut::Atomic(&atomic));
+            let want = match op {
+                0 => init.wrapping_add(v),
+                1 => init.wrapping_sub(v),
+                2 => init & v,
+                3 => init | v,
+                4 => init ^ v,
+                5 => v,
+                _ => {
+                    if init == exp {
+                        v
+                    } else {
+                        init
+                    }
+                }
+            };
+            assert!(old_p == init && old_a == init);
+            assert!(plain == want);
+            assert!(ElementRef::<$t>::Atomic(&atomic).load(Ordering::SeqCst) == want);
+            assert!(ElementRef::<$t>::Plain(&plain).load(Ordering::SeqCst) == want);
+        }
+    };
+}
+rmw_harness!(c15_rmw_u8, u8, AtomicU8);
+rmw_harness!(c15_rmw_i16, i16, AtomicI16);
+rmw_harness!(c15_rmw_i32, i32, AtomicI32);
+rmw_harness!(c15_rmw_u32, u32, AtomicU32);
+rmw_harness!(c15_rmw_i64, i64, AtomicI64);
+rmw_harness!(c15_rmw_u64, u64, AtomicU64);
+
 #[cfg(verif_replay)]
 include!("/verif/.cache/playback/ta_element.rs");
